@@ -379,7 +379,7 @@ fn setup_spec() -> impl Strategy<Value = OpSpec> {
 }
 
 pub fn run(c: &Ctx) {
-    c.set_rule("states: proptest-generated Memfs states over a 3-name namespace (dirs, files with small contents, links to dirs/files/links/missing targets) built from 2..10 creating calls; for EVERY state: every macro (11 checking, 8 acting; write_all also with a non-UTF-8 payload, mkdir_m also with a sticky-bit mode) x every path of the namespace that exists, a missing child, a missing-parent path and the empty string (pairs: copyfile/symlink with a second path; read_all/write_all with matching and different data; readlink/readlink_abs with the right text, a wrong one and a proper-suffix of the right one), each invocation on a freshly rebuilt state under catch_unwind; Memfs always, a seeded part on a tmpfs Stdfs sandbox materialised with std::fs. Oracle: checking macros panic <=> the reference predicate over the pre-state is false and leave the state alone; acting macros: never 'no panic and postcondition false', never 'panic although postcondition holds', never a panic of a creating macro on an unobstructed path (symlink: a new link points where vfs.symlink(link, target) points, also for targets relative to the link's directory; an existing link is untouched); every panic message names the macro and shows the resolved path. Non-trivial = invocation on an existing entry of another kind than the macro asks for, a link, or a near-miss second argument; distinct by (state, macro, arguments).");
+    c.set_rule("states: proptest-generated Memfs states over a 3-name namespace (dirs, files with small contents, links to dirs/files/links/missing targets) built from 2..10 creating calls; for EVERY state: every macro (11 checking, 8 acting; write_all also with a non-UTF-8 payload, mkdir_m also with a sticky-bit mode) x every path of the namespace that exists, a missing child, a missing-parent path and the empty string (pairs: copyfile/symlink with a second path; read_all/write_all with matching and different data; readlink/readlink_abs with the right text, a wrong one and a proper-suffix of the right one), each invocation on a freshly rebuilt state under catch_unwind; Memfs always, a seeded part on a tmpfs Stdfs sandbox materialised with std::fs. Oracle: checking macros panic <=> the reference predicate over the pre-state is false and leave the state alone; acting macros: never 'no panic and postcondition false', never 'panic although postcondition holds', never a panic of a creating macro on an unobstructed path (symlink: a new link points where vfs.symlink(link, target) points, also for targets relative to the link's directory; an existing link is untouched); every panic message names the macro and shows the resolved path. testing::capture_panic returns panic messages of 0..70 000 bytes (ASCII and multi-byte) unaltered. Non-trivial = invocation on an existing entry of another kind than the macro asks for, a link, or a near-miss second argument; distinct by (state, macro, arguments).");
     c.assume("no_dir!/no_file! on an existing entry of another kind: pass or panic both admitted (docs and code disagree); copyfile! into an existing directory: not asserted");
     let n = c.tier.pick(1500, 20000);
     let cfg = GenCfg { names: NAMES3, avoid_through_link: true, plain_spelling: true, wild: false, handles: false };
@@ -570,9 +570,40 @@ pub fn run(c: &Ctx) {
         state_body(setup, tree, false)
     });
     crate::sandbox::cleanup();
+    // serial (the helper swaps the global panic hook): message lengths around plausible caps
+    for len in [0usize, 19, 100, 255, 256, 257, 511, 512, 513, 1023, 1024, 1025, 4096, 70_000] {
+        for mb in [false, true] {
+            c.eval(1);
+            c.class("capture_panic:message-fidelity");
+            c.judge("capture-panic", &json!([len, mb]), check_capture_panic(len, mb));
+        }
+    }
+}
+
+/// testing::capture_panic hands back the whole panic message (it is how callers read what a macro said)
+pub fn check_capture_panic(len: usize, multibyte: bool) -> CaseResult {
+    let unit = if multibyte { "é日" } else { "ab" };
+    let mut msg = String::from("assert_vfs_probe!: ");
+    while msg.len() < len {
+        msg.push_str(unit);
+    }
+    let m2 = msg.clone();
+    let r = std::panic::catch_unwind(move || rivia::testing::capture_panic(move || panic!("{}", m2)));
+    // capture_panic swaps the process panic hook: restore ours
+    install_panic_hook();
+    match r {
+        Ok(Err(e)) if e.to_string().contains(&msg) => Ok(()),
+        Ok(Err(e)) => Err(Failure::new("capture_panic|message-altered", format!("a panic message of {} bytes came back as {:?} ({} bytes)", msg.len(), e.to_string().chars().take(80).collect::<String>(), e.to_string().len()))),
+        Ok(Ok(())) => Err(Failure::new("capture_panic|panic-not-reported", format!("a panic with a message of {} bytes was reported as Ok", msg.len()))),
+        Err(_) => Err(Failure::new("capture_panic|panicked-itself", format!("capture_panic panicked on a message of {} bytes (multibyte={})", msg.len(), multibyte))),
+    }
 }
 
 pub fn replay(kind: &str, case: &Value) -> Option<CaseResult> {
+    if kind == "capture-panic" {
+        let a = case.as_array()?;
+        return Some(check_capture_panic(a[0].as_u64()? as usize, a[1].as_bool()?));
+    }
     match kind {
         "macro" => {
             let r = check_macro(&serde_json::from_value(case.clone()).ok()?);
